@@ -32,6 +32,8 @@ def HybFree : CExpr → Bool
   | .call _ _ _ _ => false
   | .stmtexpr _ _ _ => false
   | .seqexpr _ _ _ _ _ => false
+  | .callx _ _ _ _ _ => false
+  | .xmacro _ _ _ => false
 def HybFreeL : List CExpr → List CT → Bool
   | [], _ => true
   | _ :: _, [] => false
